@@ -48,17 +48,18 @@ pub fn run(ctx: &Ctx) -> i32 {
     // 7 / 8 the lowest / highest layer hidden and a non-zero z-index in every cel chunk,
     // 9 / 10 an indexed sprite (transparent index in use) whose lowest layer is a hidden / visible background layer,
     // 11 / 12 layer flag words with the reference, background, locked ... bits set (with / without the visible bit),
-    // 13 the middle layer hidden and every cel of the later frames a link to frame 0 (where frame 0 has a cel on that layer)
+    // 13 the middle layer hidden and every cel of the later frames a link to frame 0 (where frame 0 has a cel on that layer),
+    // 14 the cel chunks of every frame stored out of layer order
     let mut cases = Vec::new();
     for (si, (nf, nl)) in shapes.iter().enumerate() {
         for m in 0..(1u32 << (nf * nl)) {
-            for variant in 0..14 {
+            for variant in 0..15 {
                 cases.push((si, m, variant));
             }
         }
     }
     let fam = "cells";
-    ctx.family(fam, cases.len() as u64, "shapes (frames,layers) in {(2,3),(3,2),(1,4),(4,1)} (thorough: + (3,3),(2,5),(5,2)): every subset of the F*L cells present, each with unique offset, pixels, opacity and user-data record; variants: plain / one linked cell / a tilemap layer / a hidden layer / a non-Normal blend mode / a hidden group parent / all layers at opacity 255 with in-canvas cels of reduced cel opacity / a non-zero z-index field in every cel chunk with the lowest or the highest layer hidden / an indexed sprite with the transparent index in use whose lowest layer is a hidden or a visible background layer / layer flag words carrying the reference, background, locked, continuous and collapsed bits / the middle layer hidden and the later frames made of links to frame 0. Three routes must agree; single-visible-layer frames must equal the cel image; tilemap image must equal its cel image (checked directly on the library's outputs and against the model)", true);
+    ctx.family(fam, cases.len() as u64, "shapes (frames,layers) in {(2,3),(3,2),(1,4),(4,1)} (thorough: + (3,3),(2,5),(5,2)): every subset of the F*L cells present, each with unique offset, pixels, opacity and user-data record; variants: plain / one linked cell / a tilemap layer / a hidden layer / a non-Normal blend mode / a hidden group parent / all layers at opacity 255 with in-canvas cels of reduced cel opacity / a non-zero z-index field in every cel chunk with the lowest or the highest layer hidden / an indexed sprite with the transparent index in use whose lowest layer is a hidden or a visible background layer / layer flag words carrying the reference, background, locked, continuous and collapsed bits / the middle layer hidden and the later frames made of links to frame 0 / cel chunks stored out of layer order. Three routes must agree; single-visible-layer frames must equal the cel image; tilemap image must equal its cel image (checked directly on the library's outputs and against the model)", true);
     let fmt = Fmt::Rgba;
     cases.par_iter().for_each(|(si, m, variant)| {
         let case = || format!("shape={:?} present={:b} variant={}", shapes[*si], m, variant);
@@ -148,6 +149,23 @@ pub fn run(ctx: &Ctx) -> i32 {
                 }
                 f.frames[fr].push(body);
                 f.frames[fr].push(Body::UserData(UserData::both(&format!("cel {} {}", fr, l), [uid as u8, 1, 2, 3])));
+            }
+        }
+        if *variant == 14 {
+            // the cel chunks of every frame (each with the record that follows it) rotated and partly swapped,
+            // so that they are not in layer order and the last two of a frame are
+            for fr in f.frames.iter_mut() {
+                let first_cel = fr.chunks.iter().position(|c| matches!(c.body, Body::Cel(_))).unwrap_or(fr.chunks.len());
+                let mut pairs: Vec<Vec<Chunk>> = fr.chunks.split_off(first_cel).chunks(2).map(|p| p.to_vec()).collect();
+                if pairs.len() >= 2 {
+                    pairs.rotate_left(1);
+                    let n = pairs.len();
+                    if n >= 3 {
+                        pairs.swap(0, n - 1);
+                        pairs.rotate_right(1);
+                    }
+                }
+                fr.chunks.extend(pairs.into_iter().flatten());
             }
         }
         let c = conform(ctx, fam, &case, &f, &want);
